@@ -15,11 +15,32 @@ structure Ctx where
   loops : Nat
   /-- the command is in a context where `errexit` is ignored -/
   exempt : Bool
+  /-- signal traps are not run here: a trap action is running, or this is a subshell environment
+      (which has no command traps; the signal is addressed to the main shell) -/
+  quiet : Bool
   deriving DecidableEq, Repr
 
 def Ctx.cond (c : Ctx) : Ctx := { c with exempt := true }
 def Ctx.inLoop (c : Ctx) : Ctx := { c with loops := c.loops + 1 }
-def Ctx.sub (c : Ctx) : Ctx := { c with loops := 0 }
+def Ctx.sub (c : Ctx) : Ctx := { c with loops := 0, quiet := true }
+/-- a trap action: no enclosing loop is visible, no other trap action starts -/
+def Ctx.trap (c : Ctx) : Ctx := { c with loops := 0, quiet := true }
+
+/-- the signal's action is due after this command -/
+def trapDueS (ctx : Ctx) (s : St) : Option (List Item) :=
+  if s.pending && !ctx.quiet then s.sigTrap else none
+
+/-- after every command: the action of a signal caught meanwhile runs (in the trap context), `$?` is
+    restored, and of two diverts the more severe one wins -/
+def pollWithS (run : Ctx → St → List Item → St × Res) (ctx : Ctx) (s1 : St) (r : Res) : St × Res :=
+  match r with
+  | .outOfFuel => (s1, .outOfFuel)
+  | r =>
+    match trapDueS ctx s1 with
+    | none => (s1, r)
+    | some body =>
+      let x := run ctx.trap { s1 with pending := false } body
+      finishPoll s1.status x.1 r x.2
 
 /-- `set -e`: a failing command ends the shell unless exempt -/
 def errexitS (ctx : Ctx) (s : St) : Res :=
@@ -93,6 +114,8 @@ mutual
       | .specialErr wrapped status =>
         afterSimple ctx { s with status := status } (if wrapped then .continue_ else .break_ (.interrupt none))
       | .trapExit body => afterSimple ctx { s with exitTrap := some body, status := 0 } .continue_
+      | .trapSig body => afterSimple ctx { s with sigTrap := some body, status := 0 } .continue_
+      | .raise n => afterSimple ctx { s with pending := true, status := n } .continue_
       | .group body => specList fuel ctx s body
       | .subshell body =>
         let (c1, r) := specList fuel ctx.sub s body
@@ -100,7 +123,7 @@ mutual
         | .outOfFuel => (s, .outOfFuel)
         | r =>
           let c2 := c1.applyResult r
-          let s1 := { s with status := c2.status, trace := c2.trace }
+          let s1 := { s with status := c2.status, trace := c2.trace, pending := c2.pending }
           (s1, errexitS ctx s1)
       | .asyncWait body =>
         let (c1, r) := specList fuel ctx.sub s body
@@ -108,7 +131,7 @@ mutual
         | .outOfFuel => (s, .outOfFuel)
         | r =>
           let c2 := c1.applyResult r
-          let s1 := { s with status := 0, trace := c2.trace }
+          let s1 := { s with status := 0, trace := c2.trace, pending := c2.pending }
           (s1, errexitS ctx s1)
       | .ifc cond body elifs els =>
         let (s1, r) := specList fuel ctx.cond s cond
@@ -250,7 +273,10 @@ mutual
   def specCommands : Nat → Ctx → St → List Cmd → St × Res
     | 0, _, s, _ => (s, .outOfFuel)
     | _+1, _, s, [] => ({ s with status := 0 }, .continue_)
-    | fuel+1, ctx, s, [c] => specCmd fuel ctx s c
+    | fuel+1, ctx, s, [c] =>
+      -- every command is followed by the actions of the signals caught meanwhile
+      let x := specCmd fuel ctx s c
+      pollWithS (specList fuel) ctx x.1 x.2
     | fuel+1, ctx, s, cmds =>
       let (s1, r) := specPipeMembers fuel ctx s cmds 0
       match r with
@@ -268,7 +294,7 @@ mutual
       | r =>
         let c2 := c1.applyResult r
         let final' := if c2.status ≠ 0 ∨ !s.pipefail then c2.status else final
-        specPipeMembers fuel ctx { s with trace := c2.trace } rest final'
+        specPipeMembers fuel ctx { s with trace := c2.trace, pending := c2.pending } rest final'
 end
 
 /-- a script is read and executed one complete command line at a time -/
@@ -279,10 +305,14 @@ def specScript : Nat → St → List Line → St × Res
     let r := Res.break_ (.interrupt (some 2))
     (s.applyResult r, r)
   | fuel+1, s, .cmds line :: rest =>
-    let (s1, r) := specList fuel ⟨0, false⟩ s line
-    match r with
-    | .continue_ => specScript fuel s1 rest
-    | r => (s1.applyResult r, r)
+    let x := pollWithS (specList fuel) ⟨0, false, false⟩ s .continue_
+    match x.2 with
+    | .continue_ =>
+      let (s1, r) := specList fuel ⟨0, false, false⟩ x.1 line
+      (match r with
+       | .continue_ => specScript fuel s1 rest
+       | r => (s1.applyResult r, r))
+    | r0 => (x.1.applyResult r0, r0)
 
 /-- the EXIT action runs in a fresh loop context (a trap cannot `break` the interrupted loops) -/
 def specExitTrap (fuel : Nat) (s : St) : St × Res :=
@@ -290,7 +320,7 @@ def specExitTrap (fuel : Nat) (s : St) : St × Res :=
   | none => (s, .continue_)
   | some body =>
     let prev := s.status
-    let (s1, r) := specList fuel ⟨0, false⟩ s body
+    let (s1, r) := specList fuel ⟨0, false, true⟩ s body
     match r with
     | .outOfFuel => (s1, .outOfFuel)
     | .break_ (.interrupt (some _)) => (s1.applyResult r, r)
